@@ -28,6 +28,8 @@ pub enum Beh {
     EventsClosing(u32),
     /// fetch the body (limit 1 000 000); the second call sends `k` events before it returns an event stream (the queue holds 50)
     UploadThenEvents(u32),
+    /// an event stream whose `n` events of 30 000 bytes are all queued before the response is returned
+    EventBurst(u32),
     /// a response that the serialiser refuses before it writes anything (it carries a Content-Length field of its own)
     Unwritable,
     /// fetch the body (limit 1 000 000); the second call keeps a clone of the request (an audit queue) and answers 200
@@ -122,6 +124,11 @@ fn handler(req: Request) -> Response {
                 std::thread::sleep(Duration::from_millis(ms));
                 Response::text(200, format!("got-{path}-{}", req.body.len().unwrap_or(0)))
             }
+        }
+        Beh::EventBurst(n) => {
+            let (mut sender, r) = Response::event_stream();
+            for i in 1..=n { sender.send(servlin::Event::Message(format!("e{i}-{path}-{}", "b".repeat(30_000)))); }
+            r
         }
         Beh::Unwritable => Response::text(200, "x").with_header("Content-Length", servlin::AsciiString::try_from("1").unwrap()),
         Beh::UploadThenEvents(k) => {
@@ -247,6 +254,7 @@ pub fn request_bytes(spec: &str) -> (Vec<u8>, String, Beh) {
         "S" => Beh::UploadThenEvents(beh[1..].parse().unwrap()),
         "Q" => Beh::UploadKeepClone,
         "U" => Beh::Unwritable,
+        "B" => Beh::EventBurst(beh[1..].parse().unwrap()),
         "w" => Beh::Wait(beh[1..].parse().unwrap()),
         "F" => {
             let parts: Vec<&str> = beh[1..].split('-').collect();
@@ -544,10 +552,11 @@ fn events_in_sequences(ctx: &mut Ctx, rng: &mut Rng) {
     let mut eidx = 50_000u64;
     for n in [1u32, 2, 3] {
         for sched in ["single", "frag", "mid"] {
-            for shape in 0..3 {
+            for shape in 0..4 {
                 eidx += 1;
                 if !ctx.mine(eidx) { continue; }
-                let reqs = if shape == 2 { format!("GET:/pre{eidx}:n::n200;GET:/ev{eidx}:n::X{n};GET:/after{eidx}:n::n200") } else if shape == 0 { format!("GET:/ev{eidx}:n::E{n};GET:/after{eidx}:n::n200") }
+                // shape 3: a burst of 30 000-byte events queued before the stream starts (several fit one read of the encoder, not all)
+                let reqs = if shape == 3 { format!("GET:/ev{eidx}:n::B{};GET:/after{eidx}:n::n200", n + 1) } else if shape == 2 { format!("GET:/pre{eidx}:n::n200;GET:/ev{eidx}:n::X{n};GET:/after{eidx}:n::n200") } else if shape == 0 { format!("GET:/ev{eidx}:n::E{n};GET:/after{eidx}:n::n200") }
                     else { format!("GET:/pre{eidx}:n::n200;GET:/ev{eidx}:n::E{n};POST:/post{eidx}:k:{}:n201;GET:/ev2{eidx}:n::E1", body(rng, 30)) };
                 case(ctx, "c04", "100", "1", sched, &reqs);
             }
